@@ -237,6 +237,8 @@ theorem inv_applyEff (e : Eff) {m : M} (h : m.Inv) : (applyEff e m).Inv := by
     split
     · next c heq => rw [heq] at this; exact this
     · next c heq => rw [heq] at this; rw [log_ctx]; exact this
+  | suspend ms => exact h
+  | terminateSelf => exact h
 
 theorem inv_applyEffs (es : List Eff) {m : M} (h : m.Inv) : (applyEffs es m).Inv := by
   induction es generalizing m with
@@ -355,7 +357,13 @@ theorem inv_frameNext : ∀ (fuel : Nat) {m : M}, m.Inv → (frameNext fuel m).1
           have h2 := inv_settle (advance f).2 (enact b (m.setTop (advance f).1)) (inv_enact b h1)
           split
           · next m3 r heq => rw [heq] at h2; exact h2
-          · next m3 heq => rw [heq] at h2; exact ih h2
+          · next m3 heq =>
+            rw [heq] at h2
+            split
+            · split
+              · exact h2
+              · exact ih h2
+            · exact ih h2
       · exact h1
 
 /-! ### instructions -/
@@ -496,13 +504,39 @@ theorem inv_afterInstr {m : M} (h : m.Inv) : (afterInstr m).1.Inv := by
       simp only [log_ctx]
       exact hu
 
+theorem inv_deadline {m : M} (h : m.Inv) :
+    (deadline m).2.Inv ∧ ∀ r, (deadline m).1 = some r → r.1.Inv := by
+  unfold deadline
+  have hc : m.readClock.2.Inv := h
+  split
+  · split
+    · refine ⟨hc, ?_⟩
+      intro r hr
+      simp only [Option.some.injEq] at hr
+      rw [← hr]
+      show Ctx.Inv _
+      simp only [log_ctx]
+      exact hc
+    · exact ⟨hc, by intro r hr; cases hr⟩
+  · exact ⟨h, by intro r hr; cases hr⟩
+
+theorem inv_yieldStep {m : M} (h : m.Inv) : (yieldStep m).1.Inv := by
+  unfold yieldStep
+  have hd := inv_deadline h
+  split
+  · next r m2 heq => rw [heq] at hd; exact hd.2 r rfl
+  · next m2 heq => rw [heq] at hd; exact hd.1
+
 theorem inv_fetchExec {m : M} (h : m.Inv) : (fetchExec m).1.Inv := by
   unfold fetchExec
   split
   · exact h
   · split
     · exact h
-    · exact inv_afterInstr (inv_execInstr _ h)
+    · have hd := inv_deadline h
+      split
+      · next r m2 heq => rw [heq] at hd; exact hd.2 r rfl
+      · next m2 heq => rw [heq] at hd; exact inv_afterInstr (inv_execInstr _ hd.1)
 
 theorem inv_step : ∀ (fuel : Nat) {m : M}, m.Inv → (step fuel m).1.Inv := by
   intro fuel
@@ -521,7 +555,16 @@ theorem inv_step : ∀ (fuel : Nat) {m : M}, m.Inv → (step fuel m).1.Inv := by
           split
           · next m1 heq => rw [heq] at hn; exact hn
           · next m1 heq => rw [heq] at hn; exact hn
-          · next m1 r _ _ heq =>
+          · next m1 heq =>
+            rw [heq] at hn
+            simp only at hn
+            split
+            · have ha := inv_afterInstr hn
+              split
+              · next m2 heq2 => rw [heq2] at ha; exact ih ha
+              · next m2 r2 _ heq2 => rw [heq2] at ha; exact ha
+            · exact inv_yieldStep hn
+          · next m1 r _ _ _ heq =>
             rw [heq] at hn
             simp only at hn
             split
